@@ -17,10 +17,10 @@ import (
 // Ctx collects what a property run did: evaluations, distinct non-trivial inputs, branch histogram,
 // correspondence disagreements (Go vs Lean driver) and property violations found on the real code.
 type Ctx struct {
-	Prop   string
-	Tier   string
-	Seed   uint64
-	Driver string
+	Prop     string
+	Tier     string
+	Seed     uint64
+	Driver   string
 	Thorough bool
 
 	Evaluations   int
@@ -43,10 +43,10 @@ type Finding struct {
 	Lean  any    `json:"lean,omitempty"`
 }
 
-func (c *Ctx) Tag(t string)        { c.Hist[t]++ }
-func (c *Ctx) Note(s string)       { c.Notes = append(c.Notes, s) }
-func (c *Ctx) Eval(n int)          { c.Evaluations += n }
-func (c *Ctx) Nontrivial(key any)  { c.nontrivial[hashOf(key)] = true }
+func (c *Ctx) Tag(t string)       { c.Hist[t]++ }
+func (c *Ctx) Note(s string)      { c.Notes = append(c.Notes, s) }
+func (c *Ctx) Eval(n int)         { c.Evaluations += n }
+func (c *Ctx) Nontrivial(key any) { c.nontrivial[hashOf(key)] = true }
 func (c *Ctx) Sample(s any) {
 	if len(c.Samples) < 3 {
 		c.Samples = append(c.Samples, s)
@@ -140,18 +140,18 @@ func (c *Ctx) Lean(ops []J) []J {
 }
 
 type Report struct {
-	Property         string         `json:"property"`
-	Tier             string         `json:"tier"`
-	Seed             uint64         `json:"seed"`
-	Evaluations      int            `json:"evaluations"`
-	DistinctNontriv  int            `json:"distinct_nontrivial"`
-	LeanOps          int            `json:"lean_ops"`
-	Histogram        map[string]int `json:"histogram"`
-	Samples          []any          `json:"samples"`
-	Disagreements    []Finding      `json:"disagreements"`
-	Violations       []Finding      `json:"violations"`
-	Notes            []string       `json:"notes"`
-	WallS            float64        `json:"wall_s"`
+	Property        string         `json:"property"`
+	Tier            string         `json:"tier"`
+	Seed            uint64         `json:"seed"`
+	Evaluations     int            `json:"evaluations"`
+	DistinctNontriv int            `json:"distinct_nontrivial"`
+	LeanOps         int            `json:"lean_ops"`
+	Histogram       map[string]int `json:"histogram"`
+	Samples         []any          `json:"samples"`
+	Disagreements   []Finding      `json:"disagreements"`
+	Violations      []Finding      `json:"violations"`
+	Notes           []string       `json:"notes"`
+	WallS           float64        `json:"wall_s"`
 }
 
 var props = map[string]func(*Ctx){}
